@@ -107,6 +107,21 @@ def parse_errors(stderr, gen_basename):
             # later --> lines of the same diagnostic (e.g. failed precondition is elsewhere, call site is second)
             alls = [int(LOC_RE.match(b).group(2)) for b in block if LOC_RE.match(b)
                     and os.path.basename(LOC_RE.match(b).group(1)) == gen_basename]
+            # labelled source lines of the first span group (`1845 |  fn f(..) {` ... "at the end of the function body"):
+            # a postcondition inherited from a trait declaration is located there, not by a `-->` line
+            if alls and loc is not None:
+                seen_arrow = 0
+                for b in block:
+                    if LOC_RE.match(b):
+                        seen_arrow += 1
+                        if seen_arrow > 1:
+                            break
+                        continue
+                    gm = re.match(r"^\s*(\d+)\s*\|", b)
+                    if gm and seen_arrow == 1:
+                        n = int(gm.group(1))
+                        if n not in alls:
+                            alls.append(n)
             if not msg.startswith("aborting due to"):
                 errs.append({"msg": msg, "line": loc, "lines": alls, "block": "\n".join(block)})
             i = j
